@@ -1,5 +1,6 @@
 import GraphrsModel.Obs
 import GraphrsModel.Proto
+import GraphrsModel.ObsSP
 open Graphrs
 
 /-- `store <specs> <universe> <w> <ops>`: the concrete model's and the specification's
@@ -29,6 +30,7 @@ def handle (line : String) : String :=
         | none => "bad-request parse"
       match cmd with
       | "store" => run handleStore
+      | "sp" => run handleSP
       | _ => "bad-request command"
 
 partial def loop (h : IO.FS.Stream) (out : IO.FS.Stream) : IO Unit := do
